@@ -72,6 +72,9 @@ type FuncContract struct {
 	Nullable map[string]bool
 	Unroll   map[int]int
 	Uses     []string
+	NoSafety bool
+	Stop     string // region contract: paths end before this call site; ensures are checked there
+	Start    string // region contract: verification starts before this call site (callee#k)
 }
 
 type PureFunc struct {
@@ -284,6 +287,23 @@ func (cs *Contracts) parseFile(path string) error {
 				return fmt.Errorf("%s: trusted outside func", where)
 			}
 			cur.Trusted = true
+		case "start":
+			// start before call f#k
+			w1, r2 := splitWord(rest)
+			w2, r3 := splitWord(r2)
+			if w1 != "before" || w2 != "call" || cur == nil {
+				return fmt.Errorf("%s: expected `start before call f#k`", where)
+			}
+			cur.Start = strings.TrimSpace(r3)
+		case "stop":
+			w1, r2 := splitWord(rest)
+			w2, r3 := splitWord(r2)
+			if w1 != "before" || w2 != "call" || cur == nil {
+				return fmt.Errorf("%s: expected `stop before call f#k`", where)
+			}
+			cur.Stop = strings.TrimSpace(r3)
+		case "nosafety":
+			cur.NoSafety = true
 		case "noframe":
 			cur.NoFrame = true
 		case "nullable":
